@@ -116,6 +116,34 @@ func c19Check(c C19Case, rec *evid.Rec) error {
 			return fmt.Errorf("%s: the Go value unwrapped after building (level %d) holds other data: %s (got vs assembled)", what, lvl, val.Diff(back, tview))
 		}
 	}
+	// 2b. the Go type bindnode infers from the schema (nil pointer): build, unwrap, wrap the unwrapped value again
+	var protoInf schema.TypedPrototype
+	if err := evid.Guard("bindnode.Prototype(nil)", func() error { protoInf = bindnode.Prototype(nil, st); return nil }); err != nil {
+		return fmt.Errorf("%s: inferred Go type: %v", c.Type, err)
+	}
+	for lvl, src := range []val.V{tview, rview} {
+		if tview.Has(func(x val.V) bool { return x.K == val.Uint }) {
+			break // the inferred Go type of Int is int64: integers above it belong to user-supplied uint64 types only
+		}
+		built, err := nodes.Build(src, nodes.NewProg(c.Prog), typedx.TypedProto(protoInf, lvl))
+		if err != nil {
+			return fmt.Errorf("%s with the inferred Go type: building level %d from %s failed: %w", c.Type, lvl, src.Short(200), err)
+		}
+		var re schema.TypedNode
+		if err := evid.Guard("Unwrap/Wrap (inferred Go type)", func() error {
+			un := bindnode.Unwrap(built)
+			if un == nil {
+				return fmt.Errorf("Unwrap returned nil")
+			}
+			re = bindnode.Wrap(un, st)
+			return nil
+		}); err != nil {
+			return fmt.Errorf("%s with the inferred Go type: %v", c.Type, err)
+		}
+		if err := typedx.CheckViews(re, tview, rview, fmt.Sprintf("%s with the inferred Go type: the Go value unwrapped after building (level %d), wrapped again,", c.Type, lvl)); err != nil {
+			return err
+		}
+	}
 	// 3. marshal, unmarshal into a fresh value
 	codecOK := true
 	var enc func(datamodel.Node, *bytes.Buffer) error
@@ -207,7 +235,7 @@ func isUTF8(s string) bool { return strings.ToValidUTF8(s, "\x00\x00") == s }
 
 var c19Part = evid.Part[C19Case]{
 	Prop: "C19", Name: "bind", Quick: 2500, Thorough: 250000,
-	Rule: "schema × typed value × user-supplied Go type assembled with reflect in a drawn variation (int/int8..int64/uint8..uint64/uint per Int position, float32/float64, cid.Cid / cidlink.Link / datamodel.Link, *T for optional or nullable, **T for both, nil-able slices as optionals, struct{Keys;Values} ordered maps, union structs of pointers, string- or int-backed enums, datamodel.Node for Any) × codec; Wrap must read as the value (type and representation level), building through the prototype and Unwrap must give a Go value holding the same data, Unmarshal(Marshal(v)) into a fresh value must hold the same data (ordered-map order modulo the codec's canonical order); non-trivial = a pointer-maybe, a narrow/unsigned/float32 position or an ordered map is exercised; distinct by the whole case",
+	Rule: "schema × typed value × user-supplied Go type assembled with reflect in a drawn variation (int/int8..int64/uint8..uint64/uint per Int position, float32/float64, cid.Cid / cidlink.Link / datamodel.Link, *T for optional or nullable, **T for both, nil-able slices as optionals, struct{Keys;Values} ordered maps, union structs of pointers, string- or int-backed enums, datamodel.Node for Any) × codec; Wrap must read as the value (type and representation level), building through the prototype and Unwrap must give a Go value holding the same data (also with the Go type bindnode infers from the schema, re-wrapped and compared with the reference views), Unmarshal(Marshal(v)) into a fresh value must hold the same data (ordered-map order modulo the codec's canonical order); non-trivial = a pointer-maybe, a narrow/unsigned/float32 position or an ordered map is exercised; distinct by the whole case",
 	Gen: func(t *rapid.T) C19Case {
 		s, typ, tv := genSchemaValue(t, tschema.GenOpts{MaxTypes: 5})
 		return C19Case{S: s, Type: typ, TV: tv, Ch: gobind.Choices{C: rapid.SliceOfN(rapid.Byte(), 0, 16).Draw(t, "choices")}, Prog: rapid.SliceOfN(rapid.Byte(), 0, 8).Draw(t, "prog"),
